@@ -400,3 +400,56 @@ Proof. intros. unfold drpls_full_w. apply drpls_antitone; try assumption. apply 
 Lemma iarpls_full_antitone (minf scale std r1 r2 : R) : 0 < minf -> 0 < scale -> 0 <= std -> r1 <= r2 ->
   iarpls_full_w Num_R minf scale std r2 <= iarpls_full_w Num_R minf scale std r1.
 Proof. intros. unfold iarpls_full_w. apply iarpls_antitone; try assumption. apply safe_std_pos; assumption. Qed.
+
+(* ---- derpsalsa: antitone in the residual for fixed partial weights (p <= 1/2) ---- *)
+Lemma derpsalsa_antitone (p k partial r1 r2 : R) : 0 <= p <= / 2 -> 0 < k -> 0 <= partial -> r1 <= r2 ->
+  derpsalsa_w Num_R exp p k partial r2 <= derpsalsa_w Num_R exp p k partial r1.
+Proof.
+  intros Hp Hk Hq Hr. unfold derpsalsa_w; numR.
+  apply Rmult_le_compat_r; [exact Hq|].
+  assert (Hik : 0 < / k) by (apply Rinv_0_lt_compat; lra).
+  assert (Hle1 : forall r, 0 < r -> exp ((0 - / 2) * (r / k * (r / k))) <= 1).
+  { intros r Hr0. rewrite <- exp_0. left. apply exp_increasing.
+    assert (0 < r / k) by (unfold Rdiv; nra). nra. }
+  destruct (Rgtb r2 0) eqn:H2, (Rgtb r1 0) eqn:H1.
+  - apply Rgtb_true in H1. apply Rgtb_true in H2.
+    apply Rmult_le_compat_l; [lra|].
+    destruct (Req_dec r1 r2) as [->|Hne]; [lra|]. left. apply exp_increasing.
+    assert (0 < r1 / k) by (unfold Rdiv; nra).
+    assert (r1 / k < r2 / k) by (unfold Rdiv; nra). nra.
+  - apply Rgtb_true in H2. pose proof (Hle1 r2 H2).
+    pose proof (exp_pos ((0 - / 2) * (r2 / k * (r2 / k)))). nra.
+  - apply Rgtb_true in H1. apply Rgtb_false in H2. lra.
+  - lra.
+Qed.
+
+(* ---- quantile: on each side of zero the weight decreases with the size of the residual (it is NOT
+   antitone across the negative side: towards zero it grows, which is the documented rho(r)/|r| shape) ---- *)
+Lemma quantile_decreasing_in_abs (q eps r1 r2 : R) : 0 <= q <= 1 -> 0 < eps ->
+  (0 < r1 <= r2 \/ r2 <= r1 <= 0) ->
+  quantile_w Num_R q eps r2 <= quantile_w Num_R q eps r1.
+Proof.
+  intros Hq He Hs. unfold quantile_w; numR.
+  assert (H1 : 0 < sqrt (r1 * r1 + eps)) by (apply sqrt_lt_R0; nra).
+  assert (H2 : 0 < sqrt (r2 * r2 + eps)) by (apply sqrt_lt_R0; nra).
+  assert (Hm : sqrt (r1 * r1 + eps) <= sqrt (r2 * r2 + eps)) by (apply sqrt_le_1_alt; destruct Hs; nra).
+  assert (Hsame : Rgtb r2 0 = Rgtb r1 0).
+  { destruct Hs as [Hs|Hs].
+    - assert (Rgtb r1 0 = true) as -> by (apply Rgtb_true; lra). apply Rgtb_true; lra.
+    - assert (Rgtb r1 0 = false) as -> by (apply Rgtb_false; lra). apply Rgtb_false; lra. }
+  rewrite Hsame. apply div_le_div; try assumption.
+  destruct (Rgtb r1 0); nra.
+Qed.
+
+(* across zero, for q <= 1/2: a positive residual never gets more weight than the non-positive one of the
+   same size *)
+Lemma quantile_sides (q eps r : R) : 0 <= q <= / 2 -> 0 < eps -> 0 < r ->
+  quantile_w Num_R q eps r <= quantile_w Num_R q eps (- r).
+Proof.
+  intros Hq He Hr. unfold quantile_w; numR.
+  assert (Rgtb r 0 = true) as -> by (apply Rgtb_true; lra).
+  assert (Rgtb (- r) 0 = false) as -> by (apply Rgtb_false; lra).
+  replace (- r * - r) with (r * r) by ring.
+  assert (H1 : 0 < sqrt (r * r + eps)) by (apply sqrt_lt_R0; nra).
+  apply div_le_div; try assumption. nra.
+Qed.
